@@ -1,5 +1,71 @@
--- placeholder, theorems follow
-import Spec.Decode
+/-
+  C05 — error level is never below the request; boosting never changes the version.
+  Property theorems only; helper lemmas live in Proofs/Sizing.lean.
+-/
+import Spec.Sizing
+import Model.Encoder
+import Props.C04
+import Proofs.Sizing
+
 namespace Props.C05
-theorem placeholder : True := trivial
+open Props.C04
+
+/-- Table 7: within one version the capacity does not grow with the level (L ≥ M ≥ Q ≥ H) — needed
+    because the boosting loop stops at the first level that does not fit -/
+theorem capacity_antitone :
+    Spec.capacityTable.all (fun a => Spec.capacityTable.all (fun b =>
+      a.1 != b.1 || a.2.1 == -1 || b.2.1 == -1 || Spec.levelRank a.2.1 > Spec.levelRank b.2.1 || a.2.2 ≥ b.2.2)) = true := by
+  exact Proofs.Sizing.capacity_antitone
+
+/-- level H never occurs for Micro versions, Q only for M4 (Table 7/9 have no such entries) -/
+theorem micro_levels :
+    Spec.capacityTable.all (fun a => a.1 > 0 || (a.2.1 != 2 && (a.2.1 != 3 || a.1 == 0))) = true := by
+  exact Proofs.Sizing.micro_levels
+
+/-- **boost**: for single-segment content and a requested (or defaulted) level `e`, the boosted level is
+    the highest level defined for `v`, not below `e`, whose capacity holds the content -/
+theorem boost_is_highest_fitting (v : Int) (e : Nat) (s : Model.Segment) (eci sa : Bool)
+    (hwf : WF s) (h1 : -3 ≤ v) (h2 : v ≤ 40) (he : e ∈ [0, 1, 2, 3])
+    (hfit : Spec.fits v (e : Int) [info eci s] sa = true) :
+    Model.boostErrorLevel v (some e) [s] eci sa
+      = .ok (some (Spec.expectedLevel v (some e) true [info eci s] sa).toNat) := by
+  exact Proofs.Sizing.boost_is_highest_fitting v e s eci sa hwf h1 h2 he hfit
+
+/-- boosting never lowers the level -/
+theorem boost_never_below (v : Int) (e : Nat) (segs : List Model.Segment) (eci sa : Bool) (r : Option Nat)
+    (he : e ∈ [0, 1, 2, 3]) (h : Model.boostErrorLevel v (some e) segs eci sa = .ok r) :
+    ∃ e', r = some e' ∧ Spec.levelRank (e' : Int) ≥ Spec.levelRank (e : Int) := by
+  exact Proofs.Sizing.boost_never_below v e segs eci sa r h
+
+/-- multi-part content and M1 (no level) are left alone -/
+theorem boost_identity_cases (v : Int) (error : Option Nat) (segs : List Model.Segment) (eci sa : Bool)
+    (h : error = none ∨ error = some 2 ∨ segs.length ≠ 1) :
+    Model.boostErrorLevel v error segs eci sa = .ok error := by
+  exact Proofs.Sizing.boost_identity_cases v error segs eci sa h
+
+/-- **version is independent of boosting** and so is success -/
+theorem version_boost_invariant (parts : List Model.Part) (error : Option Nat) (version : Option Int)
+    (mode : Option Nat) (mask : Option Nat) (eci : Bool) (micro : Option Bool)
+    (eciNumber : String → Option Nat) (c1 c2 : Model.Code)
+    (hb : Model.encode parts error version mode mask eci micro true eciNumber = .ok c1)
+    (hn : Model.encode parts error version mode mask eci micro false eciNumber = .ok c2) :
+    c1.version = c2.version := by
+  exact Proofs.Sizing.version_boost_invariant parts error version mode mask eci micro eciNumber c1 c2 hb hn
+
+/-- without boosting the level is exactly the requested one, or L by default, or none for M1 -/
+theorem noboost_exact (parts : List Model.Part) (error : Option Nat) (version : Option Int)
+    (mode : Option Nat) (mask : Option Nat) (eci : Bool) (micro : Option Bool)
+    (eciNumber : String → Option Nat) (c : Model.Code)
+    (h : Model.encode parts error version mode mask eci micro false eciNumber = .ok c) :
+    c.error = (if error.isNone && c.version != -3 then some 1 else error) := by
+  exact Proofs.Sizing.noboost_exact parts error version mode mask eci micro eciNumber c h
+
 end Props.C05
+
+#print axioms Props.C05.capacity_antitone
+#print axioms Props.C05.micro_levels
+#print axioms Props.C05.boost_is_highest_fitting
+#print axioms Props.C05.boost_never_below
+#print axioms Props.C05.boost_identity_cases
+#print axioms Props.C05.version_boost_invariant
+#print axioms Props.C05.noboost_exact
